@@ -208,22 +208,49 @@ func c05Writes(p *Prog, r *Report) {
 				det = "not directly in the day loop"
 			}
 			gs := inLoopGuards(e, day)
-			if len(gs) != 1 || gs[0].Kind != "cmp" || gs[0].Op != token.EQL {
+			// exactly: month(today) == month(annual date) ∧ day(today) == day(annual date), both through the inverse date conversion
+			parts := map[string]bool{}
+			var ref Poly
+			refSet := false
+			if len(gs) != 2 {
 				ok = false
-				det += "; expected the single guard day-of-year == annual output day"
-			} else {
-				P := stripVersions(gs[0].P)
-				doy := cellP("GlobalVarsMain.TAG.Index").Add(PInt(1))
-				// P = ±(doy − OUTDAY)
-				rest := P.Sub(doy)
-				if t := rest.single(); t == nil || t.C.Cmp(ratInt(-1)) != 0 {
-					rest = P.Neg().Sub(doy)
-				}
-				t := rest.single()
-				if t == nil || t.C.Cmp(ratInt(-1)) != 0 || len(t.M) != 1 || !(t.M[0].A.Root == "OUTDAY") {
+				det += "; expected exactly the two guards month == month of the annual date and day == day of the annual date"
+			}
+			for _, g := range gs {
+				if g.Kind != "cmp" || g.Op != token.EQL {
 					ok = false
-					det += "; the guard " + gs[0].Key() + " does not compare the current day of year (TAG.Index+1) with the annual output day"
+					det += "; guard " + g.Key() + " is not an equality"
+					continue
 				}
+				P := stripVersions(g.P)
+				var today, annual *Atom
+				for _, t := range P.T {
+					if len(t.M) != 1 || t.M[0].E != 1 || !strings.HasPrefix(t.M[0].A.Fn, "hermes.KalenderDate.") || len(t.M[0].A.Args) != 1 {
+						continue
+					}
+					arg := t.M[0].A.Args[0]
+					if at := arg.single(); at != nil && len(at.M) == 1 && day.Var != nil && at.M[0].A.Root == day.Var.Root {
+						today = t.M[0].A
+					} else {
+						annual = t.M[0].A
+					}
+				}
+				if today == nil || annual == nil || len(P.T) != 2 || today.Fn != annual.Fn {
+					ok = false
+					det += "; guard " + g.Key() + " does not compare the same calendar field of today (the day loop's day number) and of the annual date"
+					continue
+				}
+				parts[strings.TrimPrefix(today.Fn, "hermes.KalenderDate.")] = true
+				if !refSet {
+					ref, refSet = annual.Args[0], true
+				} else if !ref.Equal(annual.Args[0]) {
+					ok = false
+					det += "; month and day are taken from two different dates"
+				}
+			}
+			if !(parts["1"] && parts["2"]) {
+				ok = false
+				det += "; month and day of the month must both be compared (a day-of-year number differs between leap and common years)"
 			}
 			r.Ob("yearly:write", p.Pos(e.Pos), ok, "yearly record: guards {"+guardKeysOf(gs)+"}"+det)
 		}
@@ -317,44 +344,64 @@ func inLoopGuardsNoBreak(e *Event, L *LoopCtx) []*Cond {
 // ---------------------------------------------------------------- annual output day
 
 func c05AnnualDay(p *Prog, r *Report) {
-	r.Rule("C05.R1c", "annual output day is a day number that occurs in every year: the value compared in the day loop is capped at a constant not above 365 before the loop and not changed afterwards", 1)
-	x := walked(p, "hermes.HermesSession.Run")
-	if x == nil {
+	r.Rule("C05.R1c", "the date the yearly record is written on is the configured annual output date: the day number whose month and day the yearly test uses is the absolute-day result of the date conversion applied to the configured annual date text completed by the year part of the end date, defined once before the day loop", 1)
+	fi, lit := runClosure(p)
+	if fi == nil || lit == nil {
+		r.Ob("annual-date", "-", false, "run closure not found")
 		return
 	}
-	var evs []*Event
-	for _, e := range x.Events {
-		if e.Kind == "assign" && e.Local != nil && e.Local.Name() == "OUTDAY" {
-			evs = append(evs, e)
+	info := fi.Pkg.TypesInfo
+	// month/day variables of the annual date: results 1 and 2 of KalenderDate(X) outside every loop
+	var xObj types.Object
+	var pos token.Pos
+	ast.Inspect(lit.Body, func(n ast.Node) bool {
+		as, ok := n.(*ast.AssignStmt)
+		if !ok || len(as.Lhs) != 3 || len(as.Rhs) != 1 {
+			return true
 		}
-	}
-	if len(evs) == 0 {
-		r.Ob("OUTDAY", "-", false, "annual output day variable not found")
+		c, ok := as.Rhs[0].(*ast.CallExpr)
+		if !ok || len(c.Args) != 1 {
+			return true
+		}
+		if f := callee(info, c); f == nil || f.Name() != "KalenderDate" {
+			return true
+		}
+		_, loops := astPathConds(info, lit.Body, as)
+		blank := func(e ast.Expr) bool { id, ok := e.(*ast.Ident); return ok && id.Name == "_" }
+		if blank(as.Lhs[1]) || blank(as.Lhs[2]) {
+			return true
+		}
+		if len(loops) == 0 {
+			xObj = useObj(info, c.Args[0])
+			pos = as.Pos()
+		}
+		return true
+	})
+	if xObj == nil {
+		r.Ob("annual-date", "-", false, "no month/day of the annual date computed before the day loop")
 		return
 	}
-	capAt := int64(-1)
-	var capEv *Event
-	other := 0
-	for i, e := range evs {
-		if c, ok := e.Val.ConstInt(); ok && i > 0 {
-			if guardedBy(e, e.Old.Sub(PInt(c)), token.GTR) || guardedBy(e, e.Old.Sub(PInt(c)), token.GEQ) {
-				capAt, capEv = c, e
-				continue
+	ok := false
+	det := ""
+	ds := defsOf(info, lit.Body, xObj)
+	if len(ds) == 1 && ds[0].Idx == 1 {
+		if c, isCall := stripParens(ds[0].Rhs).(*ast.CallExpr); isCall && len(c.Args) == 1 && strings.HasSuffix(types.ExprString(c.Fun), ".Datum") {
+			// argument: AnnualOutputDate + EndDate[4:]
+			arg := c.Args[0]
+			if o := useObj(info, arg); o != nil {
+				if dd := defsOf(info, lit.Body, o); len(dd) == 1 {
+					arg = dd[0].Rhs
+				}
+			}
+			str := types.ExprString(stripParens(arg))
+			det = "annual date text = " + str
+			if be, isBin := stripParens(arg).(*ast.BinaryExpr); isBin && be.Op == token.ADD {
+				lhs, rhs := types.ExprString(be.X), types.ExprString(be.Y)
+				ok = strings.HasSuffix(lhs, ".AnnualOutputDate") && strings.Contains(rhs, ".EndDate[4:]")
 			}
 		}
-		if i > 0 {
-			other++
-		}
-		if len(e.Loops) > 0 {
-			other++
-		}
 	}
-	pos := p.Pos(evs[0].Pos)
-	if capEv != nil {
-		pos = p.Pos(capEv.Pos)
-	}
-	ok := capEv != nil && capAt >= 1 && capAt <= 365 && other == 0
-	r.Ob("OUTDAY:cap", pos, ok, fmt.Sprintf("annual output day capped at %d (must be ≤ 365: day 366 does not exist in common years, so no yearly record would be written in them); other redefinitions: %d", capAt, other))
+	r.Ob("annual-date", p.Pos(pos), ok, "the yearly test's reference date is the absolute day of the configured annual date in the end year: "+det)
 }
 
 // ---------------------------------------------------------------- crop record decision
